@@ -19,8 +19,12 @@ open ZipVerif ZipVerif.Model.Aes ZipVerif.Tie.Layers
 
 variable {σ : Type}
 
-/-- the model's primitives as the uninterpreted parameters of the generated code -/
-@[instance_reducible] def primsOf (P : AesPrims) : Rs.AesPrims := ⟨P.pbkdf2, P.block, P.hmac⟩
+/-- the model's primitives as the uninterpreted parameters of the generated code.  The model's `pbkdf2` IS the
+1000-round function (`ITERATION_COUNT`); for any other number of rounds the generated code sees an unrelated,
+arbitrary function `Q`. -/
+@[instance_reducible] def primsOf (P : AesPrims) (Q : Bytes → Bytes → UInt32 → Nat → Bytes := fun _ _ _ _ => []) :
+    Rs.AesPrims :=
+  ⟨fun pw salt rounds len => if rounds = 1000 then P.pbkdf2 pw salt len else Q pw salt rounds len, P.block, P.hmac⟩
 
 /-- the model's key stream as the `Box<dyn AesCipher>` of the generated code: key and counter state -/
 @[instance_reducible] def dynOf (P : AesPrims) : Rs.AesDyn :=
